@@ -23,6 +23,7 @@ const modPath = "github.com/resgateio/resgate"
 // rules work on. Everything is rebuilt from the working tree on every run.
 type Prog struct {
 	roleMemo    map[string]*ssa.Function
+	globalSet   map[*ssa.Global]int // 1: only ever set to allocations, 2: anything else
 	addrArgs    map[*types.Var][]addrArg // field -> call sites handing the field's address to a helper that derefs it
 	esStates    map[*ssa.Function]map[ssa.Instruction]int
 	implDepth   int                                  // recursion depth of helperImplies
@@ -303,6 +304,15 @@ func fieldOfAddr(fa *ssa.FieldAddr) *types.Var {
 // one method has a similar name.
 func (p *Prog) Fn(name string) *ssa.Function {
 	if f := p.ByNm[name]; f != nil {
+		// a method that moved into an embedded struct leaves a promoted-method wrapper under its old name:
+		// the code is in the method the wrapper calls
+		if f.Synthetic != "" && !strings.HasSuffix(f.Name(), "$bound") && f.Parent() == nil {
+			if m := boundMethod(f); m != nil {
+				if mf := p.SSA.FuncValue(m); mf != nil && len(mf.Blocks) > 0 && mf.Synthetic == "" {
+					return mf
+				}
+			}
+		}
 		return f
 	}
 	if f := p.fnNoRole(name); f != nil {
@@ -385,6 +395,69 @@ func (p *Prog) fnNoRole(name string) *ssa.Function {
 			p.fuzzy = append(p.fuzzy, name+" -> "+names[j])
 			return p.SSA.FuncValue(fs[j])
 		}
+	}
+	return nil
+}
+
+// FnFamily: the functions a table entry stands for. Normally the one function
+// of that name (or its renamed successor); when it is gone and the type has
+// methods whose names are the old name with one word inserted
+// (removeCount -> removeDirectCount, removeIndirectCount: a bool parameter
+// replaced by two functions), those.
+func (p *Prog) FnFamily(name string) []*ssa.Function {
+	if f := p.Fn(name); f != nil {
+		return []*ssa.Function{f}
+	}
+	if !strings.HasPrefix(name, "(") {
+		return nil
+	}
+	end := strings.Index(name, ").")
+	if end < 0 {
+		return nil
+	}
+	recv := strings.TrimPrefix(name[1:end], "*")
+	old := name[end+2:]
+	n := p.Named(recv)
+	if n == nil {
+		return nil
+	}
+	words := func(s string) []string {
+		var out []string
+		cur := ""
+		for i, r := range s {
+			if i > 0 && r >= 'A' && r <= 'Z' {
+				out = append(out, cur)
+				cur = ""
+			}
+			cur += string(r)
+		}
+		return append(out, cur)
+	}
+	var fam []*ssa.Function
+	for k := 0; k < n.NumMethods(); k++ {
+		m := n.Method(k)
+		ws := words(m.Name())
+		if len(ws) < 2 {
+			continue
+		}
+		for skip := 1; skip < len(ws); skip++ {
+			cand := ""
+			for i, w := range ws {
+				if i != skip {
+					cand += w
+				}
+			}
+			if cand == old {
+				if f := p.SSA.FuncValue(m); f != nil && len(f.Blocks) > 0 {
+					fam = append(fam, f)
+				}
+				break
+			}
+		}
+	}
+	if len(fam) >= 2 {
+		p.fuzzy = append(p.fuzzy, fmt.Sprintf("%s -> a family of %d functions", name, len(fam)))
+		return fam
 	}
 	return nil
 }
